@@ -134,7 +134,13 @@ def handleCore (cli : Bool) (op : String) (f : List String) : Verdict :=
         | none => bad "C15.graft after dump"
         | some after =>
           if wf != "" then ⟨.oracle, tags, "malformed heap after graft: " ++ wf⟩
-          else if !valid then ⟨.pass, "skip-dupnames" :: tags, ""⟩
+          else if !valid then
+            -- host and graft share names (the code accepts it; distances by name mean nothing then): no oracle,
+            -- but the result is compared with the model, cell by cell
+            (match m with
+             | .ok mt => if zeroPpos mt == zeroPpos after then ⟨.pass, "dupnames-compared" :: tags, ""⟩
+                         else ⟨.tie, tags, "graft with shared names: model " ++ mt.dump⟩
+             | .error _ => ⟨.pass, "skip-dupnames" :: tags, ""⟩)
           else if !(graftOK t tip g after) then ⟨.oracle, tags, "graft: tips or distances of pre-existing tips changed"⟩
           else if !(indexOK ia after) then ⟨.tie, tags, "graft: the tip index does not answer for exactly the tips: " ++ ia⟩
           else if !(derivedOK ia after false) then ⟨.tie, tags, "graft: tip ids differ from the model's UpdateTipIndex: " ++ ia⟩
@@ -218,7 +224,7 @@ def handleCore (cli : Bool) (op : String) (f : List String) : Verdict :=
       let valid := t.uniqueTips && !(t.tipNames.contains "") && !(groups.flatten.contains "")
       let (mt, merr) := insertIdentical (flag idx) t groups
       let oneOld := groups.all fun g => (g.filter t.tipNames.contains).length == 1
-      let tags := tagIf valid "uniq" ++ shapeTags t ++ tagIf (flag idx) "indexed" ++ tagIf oneOld "one-existing-each" ++ tagIf (nondegB t) "nondeg" ++ tagIf (dupInnerLabels t) "dup-inner-labels" ++
+      let tags := tagIf valid "uniq" ++ shapeTags t ++ tagIf (flag idx) "indexed" ++ tagIf oneOld "one-existing-each" ++ tagIf (nondegB t) "nondeg" ++ tagIf (dupInnerLabels t) "dup-inner-labels" ++ tagIf (dupLabels t && !dupInnerLabels t) "inner-label-is-tip" ++
         tagIf (groups.any (·.length ≥ 3)) "group>=3" ++
         tagIf (t.splits.any fun s => s.tip && s.e.len == 0 && groups.flatten.contains (s.below.headD "")) "zero-tip-branch" ++
         tagIf (t.splits.any fun s => s.tip && s.e.len == NIL && groups.flatten.contains (s.below.headD "")) "absent-tip-branch"
@@ -246,7 +252,7 @@ def handleCore (cli : Bool) (op : String) (f : List String) : Verdict :=
               | some e => ⟨.tie, tags, "model rejects: " ++ e⟩
           else if flag idx && groupsAcceptable t groups then
             -- acceptable groups refused: a violation; the recorded one is the duplicate-inner-label refusal (F79)
-            ⟨.oracle, tags, (if dupInnerLabels t && (outcome.splitOn "NewNodeIndex").length ≥ 2 && (outcome.splitOn "several%20node%20with%20the%20same%20name").length ≥ 2
+            ⟨.oracle, tags, (if dupLabels t && (outcome.splitOn "NewNodeIndex").length ≥ 2 && (outcome.splitOn "several%20node%20with%20the%20same%20name").length ≥ 2
                               then "class=InsertIdenticalDuplicateInnerLabels " else "") ++
               "groups with exactly one existing member each were refused on a tree with unique tip names: " ++ outcome⟩
           else match merr with
@@ -313,7 +319,7 @@ def handleCore (cli : Bool) (op : String) (f : List String) : Verdict :=
           else if sh != "" then ⟨.oracle, tags, "the clone shares heap cells with its source: " ++ sh⟩
           else if txtT != txtC then ⟨.oracle, tags, "text of the clone differs from the text of the source"⟩
           else if !(cloneOK t c) then ⟨.oracle, tags, "clone differs from its source (names, comments, branch data, order)"⟩
-          else if idsT != idsC then ⟨.oracle, tags, "clone is not an exact copy: node ids / depths or the tip counts / hash codes of the branches differ"⟩
+          else if idsT != idsC then ⟨.oracle, tags, "clone is not an exact copy: node ids / depths, tip counts / hash codes of the branches, or the stats row of a branch (depth to the root) differ"⟩
           else if t.uniqueTips && !(indexOK ia c) then ⟨.tie, tags, "clone: the tip index does not answer for exactly the tips: " ++ ia⟩
           else if t.uniqueTips && !(bitsOK ia) then ⟨.tie, tags, "clone: the copied branch bitsets do not describe the clone: " ++ ia⟩
           else if t.uniqueTips && !(derivedOK ia c true) then ⟨.tie, tags, "clone: tip ids / copied bitsets differ from the model: " ++ ia⟩
@@ -398,7 +404,7 @@ def handleCore (cli : Bool) (op : String) (f : List String) : Verdict :=
     match T.undump dT, parseNatList pathS, parseHeap before, parseHeap after with
     | some t, some path, some (root, cells), some (aroot, acells) =>
       let tags := ["heapedit-reroot"] ++ tagIf (!allPposZero t) "ppos-nonzero" ++ tagIf path.isEmpty "at-root"
-      if panicked outcome then ⟨.pass, "skip-panic" :: tags, ""⟩
+      if panicked outcome then ⟨.oracle, tags, "Reroot panicked: " ++ outcome⟩
       else if outcome != "ok" then ⟨.pass, "rejected" :: tags, ""⟩
       else match Heap.heapPath t path [0] true with
         | none => bad "C15.heapedit path"
